@@ -629,7 +629,8 @@ impl State {
             );
         }
 
-        for change in decode_state.changes.drain(..) {
+        // undo in reverse order: later changes of the block depend on earlier ones
+        for change in decode_state.changes.drain(..).rev() {
             self.apply_backward_change(&mut adds, &mut removes, change);
         }
 
